@@ -225,6 +225,7 @@ inline Verdict expect_C07(const WSnap& pre, const CallInfo& ci) {
         if (fr.size() != n) { v.classes.insert(INVALID_ARGUMENT); v.why += "frame count differs; "; }
         if (!fr.empty() && n > 0 && fr[0].subs.size() != spf && fr[0].subs.size() != storedSub) { v.classes.insert(INVALID_ARGUMENT); v.why += "sub-frame count differs; "; }
         if (!fr.empty() && !fr[0].subs.empty() && fr[0].subs[0].empty()) { v.classes.insert(INVALID_ARGUMENT); v.why += "no channel supplied; "; }
+        if (!fr.empty() && fr[0].subs.empty()) { v.classes.insert(INVALID_ARGUMENT); v.why += "no sub-frame, hence no channel, supplied; "; }
         if (!fr.empty()) for (auto& nm : chNames(fr[0])) if (has(alabels, nm)) { v.classes.insert(INVALID_ARGUMENT); v.why += "name exists; "; break; }
         if (!v.classes.empty()) { v.t = Verdict::MUST_REFUSE; return v; }
         bool same = true; for (auto& f : fr) { if (f.subs.size() != spf) same = false; for (auto& s : f.subs) { std::vector<std::string> nn; for (auto& c : s) nn.push_back(c.name); if (nn != chNames(fr[0])) same = false; } }
